@@ -200,10 +200,18 @@ func genCase(t *rapid.T) Case {
 			fr.Docs = append(fr.Docs, d)
 		}
 		if big && f == 0 {
+			// 1 in 4 of the big cases: more postings in one field than one on-disk LID block holds
+			// (65536), so that a token's postings straddle LID blocks and the time-range narrowing of
+			// the LID cursors has to step over a whole block
+			huge := rapid.IntRange(0, 3).Draw(t, "huge") == 3
 			fr.Fill = &Fill{
 				N:    rapid.IntRange(4097, 9000).Draw(t, "filln"),
 				Off:  clampOff(anchors[0]),
 				Step: rapid.SampledFrom([]int64{1, 0, 7, 1000, 15_000, 60_000}).Draw(t, "fillstep"),
+			}
+			if huge {
+				fr.Fill.N = rapid.IntRange(65_600, 71_000).Draw(t, "hugen")
+				fr.Fill.Step = rapid.SampledFrom([]int64{1, 0, 7}).Draw(t, "hugestep")
 			}
 			if fr.Fill.Off-int64(fr.Fill.N)*fr.Fill.Step < -day {
 				fr.Fill.Off = int64(fr.Fill.N)*fr.Fill.Step - day
@@ -580,6 +588,9 @@ func runCase(c Case) (evid.Result, error) {
 	res.Labels = append(res.Labels, fmt.Sprintf("fracs=%d", len(fracs)), fmt.Sprintf("fpi=%d", c.Opts.FracsPerIter))
 	if len(corpus) > 4096 {
 		res.Labels = append(res.Labels, "id-block(>4096 docs in a fraction)")
+	}
+	if len(corpus) > 65536 {
+		res.Labels = append(res.Labels, "lid-block(>65536 postings of one field)")
 	}
 	if c.LastActive {
 		if err := r.phase("active"); err != nil {
